@@ -6,17 +6,47 @@ import (
 	"verifh/hx"
 )
 
-func send(c, ty, n1, n2, tag, pad int64) hx.T {
-	return hx.C("OSend", c, ty, n1, n2, tag, pad, 0, []any{})
+func zlist(l []int64) []any {
+	out := []any{}
+	for _, v := range l {
+		out = append(out, v)
+	}
+	return out
 }
+
+// full form: per-push padding pattern (cyclic), response padding, mode, targets
+func sendSz(c, ty, n1, n2, tag int64, pads []int64, rpad, mode int64, targets ...int64) hx.T {
+	return hx.C("OSend", c, ty, n1, n2, tag, zlist(pads), rpad, mode, zlist(targets))
+}
+
+func padList(pad int64) []int64 {
+	if pad == 0 {
+		return nil
+	}
+	return []int64{pad}
+}
+
+func send(c, ty, n1, n2, tag, pad int64) hx.T { return sendSz(c, ty, n1, n2, tag, padList(pad), 0, 0) }
 
 // multi-target: mode 1 PushMessageByIds, mode 2 channel broadcast
 func sendTo(c, ty, n1, n2, tag, pad, mode int64, targets ...int64) hx.T {
-	l := []any{}
-	for _, t := range targets {
-		l = append(l, t)
+	return sendSz(c, ty, n1, n2, tag, padList(pad), 0, mode, targets...)
+}
+
+// sizes around the thresholds a writer / codec could treat differently: tiny, just below and
+// at 4 KiB (encoded), a few KiB, beyond 64 KiB
+var sizes = []int64{0, 0, 0, 1, 7, 100, 900, 3900, 4020, 4040, 4096, 5000, 6000, 9000, 20000, 66000, 70000}
+
+// a client that does not read while ty's handler first fills the socket buffers (bulk pushes of
+// 3000 B) and then issues a sequence mixing tiny and big messages: the packets of that
+// sequence sit in the connection's send queue together before the writer gets to them
+func stalledMixed(ty int64, pads []int64, rpad int64, stallMs int64) []hx.T {
+	ops := []hx.T{hx.C("OConn", 1, 0)}
+	if ty == 1 {
+		ops = append(ops, hx.C("OKey", 1, 1))
 	}
-	return hx.C("OSend", c, ty, n1, n2, tag, pad, mode, l)
+	return append(ops, hx.C("OStall", 1, stallMs), send(1, ty, 2500, 0, 1, 3000), sendSz(1, ty, 40, 12, 2, pads, rpad, 0),
+		sendSz(1, ty, 3, 3, 3, []int64{0, 6000, 0}, 0, 0), sendSz(1, ty, 3, 0, 4, nil, 6000, 0))
 }
 
 // a client that does not read for stallMs while ty's handler issues n pushes of ~pad bytes and
@@ -56,6 +86,13 @@ func fixedCases(tier string) [][]hx.T {
 		{hx.C("OConn", 1, 0), hx.C("OConn", 2, 0), sendTo(1, 0, 3, 1, 1, 0, 1, 2), sendTo(1, 2, 3, 1, 2, 0, 2, 2, 2, 9), sendTo(2, 0, 2, 2, 3, 0, 2, 1, 1, 2)},
 		{hx.C("OConn", 1, 0), hx.C("OConn", 2, 0), hx.C("OKey", 1, 1), hx.C("OKey", 2, 2), sendTo(1, 1, 200, 5, 1, 0, 2, 1, 2), sendTo(2, 1, 200, 5, 2, 0, 1, 2, 1),
 			sendTo(1, 0, 200, 5, 3, 0, 2, 1, 2), sendTo(2, 0, 200, 5, 4, 50, 1, 1, 2)},
+		// sizes varying WITHIN one issue sequence (C03-4: a big packet overtaking queued small ones)
+		{hx.C("OConn", 1, 0), sendSz(1, 0, 3, 0, 1, []int64{0, 6000, 0}, 0, 0), sendSz(1, 0, 3, 0, 2, nil, 6000, 0)},
+		{hx.C("OConn", 1, 0), sendSz(1, 2, 3, 0, 1, []int64{0, 6000, 0}, 0, 0), sendSz(1, 2, 3, 0, 2, nil, 6000, 0)},
+		{hx.C("OConn", 1, 0), hx.C("OConn", 2, 0), sendSz(1, 0, 12, 6, 1, []int64{0, 4096, 7, 70000, 0, 4020}, 5000, 1, 1, 2),
+			sendSz(2, 2, 12, 6, 2, []int64{9000, 0, 0, 66000, 1}, 0, 2, 2, 1), sendSz(1, 2, 8, 2, 3, []int64{0, 6000}, 70000, 0)},
+		stalledMixed(2, []int64{0, 6000, 7, 0, 70000, 100, 4096, 0}, 5000, 500),
+		stalledMixed(0, []int64{0, 6000, 7, 0, 70000, 100, 4096, 0}, 5000, 500),
 		// a stalled client: the connection's send queue (9999 slots) fills, the producer blocks
 		stalled(2, 35000, 1000, 1200),
 		stalled(0, 35000, 1000, 1200),
@@ -65,6 +102,7 @@ func fixedCases(tier string) [][]hx.T {
 	}
 	if tier == "thorough" {
 		out = append(out, burst(3000, 20, 0), burst(12000, 0, 0), burst(6000, 5, 64), burst(3000, 0, 4000),
+			stalledMixed(1, []int64{0, 0, 20000, 0, 4040, 66000}, 0, 900), stalledMixed(2, []int64{5000, 0}, 70000, 700),
 			stalled(1, 40000, 1000, 2500), stalled(2, 30000, 2000, 1500), stalled(0, 40000, 800, 2000))
 	}
 	return out
@@ -92,6 +130,9 @@ func gen(cfg *hx.Config, i int) ([]hx.T, []string) {
 			continue
 		}
 		switch p := r.Intn(100); {
+		case p < 3:
+			tags["stall"] = true
+			ops = append(ops, hx.C("OStall", c, int64(20+r.Intn(120))))
 		case p < 22:
 			v := hx.Pick(r, []int64{1, 1, 2, 2, 0})
 			ops = append(ops, hx.C("OKey", c, v))
@@ -138,7 +179,23 @@ func gen(cfg *hx.Config, i int) ([]hx.T, []string) {
 					n1 = 400
 				}
 			}
-			ops = append(ops, sendTo(c, ty, n1, n2, tag, pad, mode, targets...))
+			pads := padList(pad)
+			rpad := int64(0)
+			if r.Intn(3) == 0 && n1 <= 400 {
+				// sizes vary within the sequence, the response's too
+				tags["mixed-sizes"] = true
+				pads = nil
+				for j := 2 + r.Intn(5); j > 0; j-- {
+					pads = append(pads, hx.Pick(r, sizes))
+				}
+				if r.Intn(2) == 0 {
+					rpad = hx.Pick(r, sizes)
+				}
+				if n1 > 60 {
+					n1 = 60
+				}
+			}
+			ops = append(ops, sendSz(c, ty, n1, n2, tag, pads, rpad, mode, targets...))
 			tag++
 		}
 	}
